@@ -189,6 +189,37 @@ def scenarios(ctx, sync=False):
         return v == 5 and await f() == 7 and log == ["exit", "exit"]
     out["contextmanager"] = ctxmgr
 
+    async def ctxdecorated():
+        # the decorated callable is any async callable, not only an `async def` function: a callable object, a function
+        # handing out a coroutine, a cached coroutine function; its suspensions travel through the decorator and it
+        # runs inside the context
+        log = []
+
+        @a.contextmanager
+        async def cm():
+            await susp(("cm-enter",))
+            log.append("enter")
+            try:
+                yield 5
+            finally:
+                await susp(("cm-exit",))
+                log.append("exit")
+
+        async def body(x):
+            await susp(("body", x))
+            log.append("body")
+            return x + 1
+
+        class CallObj:
+            async def __call__(self, x):
+                return await body(x)
+
+        def returns_coroutine(x):
+            return body(x)
+        res = [await cm()(CallObj())(1), await cm()(returns_coroutine)(2), await cm()(a.lru_cache(body))(3)]
+        return res == [2, 3, 4] and log == ["enter", "body", "exit"] * 3
+    out["ContextDecorator over async callables"] = ctxdecorated
+
     async def scoped():
         s = src()
         async with a.scoped_iter(s) as it:
@@ -331,17 +362,23 @@ def run(tier, seed):
                 rep.count((n, sync), True, sample={"operation": n, "sync": sync, "suspensions": len(toks)})
                 if why is None and not sync:
                     # throw at every suspension point
-                    for j in range(len(toks)):
+                    # (a loop's own cancellation exception, and asyncio's even though no asyncio loop is running: the
+                    # library must not treat either specially)
+                    for j, exc in [(j_, e_) for j_ in range(len(toks)) for e_ in (InjBase(5), asyncio.CancelledError("thrown by a foreign loop"))]:
                         ctx2 = Ctx(None)
-                        exc = InjBase(5)
+                        before = len(poison.touched)
                         try:
                             drive_tokens(scenarios(ctx2, False)[n](), cancel_at=j, cancel_exc=exc, reply=True)
                         except BaseException:  # noqa
                             pass
                         th = getattr(ctx2, "thrown", [])
-                        rep.count((n, "throw", j), True)
+                        rep.count((n, "throw", j, type(exc).__name__), True)
                         if not th or th[0][1] is not exc or th[0][0] != ctx2.issued[j]:
-                            why = "%s: exception thrown at suspension %d (%r) did not reach that awaitable unchanged" % (n, j, ctx2.issued[j] if j < len(ctx2.issued) else None)
+                            why = "%s: %s thrown at suspension %d (%r) did not reach that awaitable unchanged" % (n, type(exc).__name__, j, ctx2.issued[j] if j < len(ctx2.issued) else None)
+                            break
+                        if len(poison.touched) > before:
+                            why = "%s: after %s was thrown at suspension %d (%r) the library asked for asyncio.%s" % (n, type(exc).__name__, j, ctx2.issued[j], poison.touched[-1])
+                            del poison.touched[before:]
                             break
                 if why:
                     fails += 1
